@@ -7,6 +7,8 @@
   '-' is the empty string / no tag / None.
 -/
 import PestModel.Interp
+import PestModel.Gen
+import PestModel.Opt
 
 open Pest
 
@@ -38,9 +40,9 @@ partial def parseExpr : Toks → Option (Expr × Toks)
   | "CI" :: s :: ts => some (.ci (decStr s), ts)
   | "RG" :: a :: b :: ts => do pure (.range (← a.toNat?) (← b.toNat?), ts)
   | "ID" :: n :: tag :: ts => some (.ident n (decOptS tag), ts)
-  | "RULE" :: n :: m :: ts => do
+  | "RULE" :: n :: m :: sm :: ts => do
     let (e, ts) ← parseExpr ts
-    pure (.rule n (← m.toNat?) e, ts)
+    pure (.rule n (← m.toNat?) (sm == "1") e, ts)
   | "SEQ" :: n :: ts => do let (es, ts) ← parseN parseExpr (← n.toNat?) ts; pure (.seq es, ts)
   | "CH" :: n :: ts => do let (es, ts) ← parseN parseExpr (← n.toNat?) ts; pure (.choice es, ts)
   | "OPT" :: ts => do let (e, ts) ← parseExpr ts; pure (.opt e, ts)
@@ -110,7 +112,7 @@ partial def encExpr : Expr → String
   | .ci s => s!"CI {encStr s}"
   | .range a b => s!"RG {a} {b}"
   | .ident n t => s!"ID {n} {encOptS t}"
-  | .rule n m b => s!"RULE {n} {m} {encExpr b}"
+  | .rule n m sm b => s!"RULE {n} {m} {if sm then 1 else 0} {encExpr b}"
   | .seq es => s!"SEQ {es.length}" ++ String.join (es.map fun e => " " ++ encExpr e)
   | .choice es => s!"CH {es.length}" ++ String.join (es.map fun e => " " ++ encExpr e)
   | .opt e => s!"OPT {encExpr e}"
@@ -154,9 +156,27 @@ def encR1 : R1 → String
   | .oof => "oof"
   | .exc k => "exc " ++ k.name
 
+def encRG : RG → String
+  | .done true c ps => encR1 (.done true c ps)
+  | .done false c _ => encR1 (.done false c [])
+  | .oof => "oof"
+  | .exc k => "exc " ++ k.name
+
 structure Session where
   g : Grammar := { rules := [] }
+  og : Option Grammar := none                      -- result of the last `O` request
   usets : List (String × List (Nat × Nat)) := []
+
+def parsePasses (t : String) : Option (List Opt.Pass) :=
+  if t == "-" then some [] else
+  (t.splitOn ",").mapM fun n =>
+    match n with
+    | "unroll" => Opt.defaultPasses[0]?
+    | "skip" => Opt.defaultPasses[1]?
+    | "inline_builtin" => Opt.defaultPasses[2]?
+    | "squash_choice" => Opt.defaultPasses[3]?
+    | "inline_silent" => Opt.defaultPasses[4]?
+    | _ => none
 
 def handleCore (s : Session) : Toks → Option (Session × String)
   | "US" :: name :: ts =>
@@ -165,9 +185,17 @@ def handleCore (s : Session) : Toks → Option (Session × String)
     | none => some (s, "bad-request:US")
   | "G" :: ts =>
     match parseGrammar ts with
-    | some rs => some ({ s with g := { rules := rs, usets := s.usets } }, "ok")
+    | some rs => some ({ s with g := { rules := rs, usets := s.usets }, og := none }, "ok")
     | none => some (s, "bad-grammar")
   | "GE" :: _ => some (s, encGrammar s.g.rules)               -- echo (serialiser self-check)
+  | ["O", passes] =>
+    match parsePasses passes with
+    | none => some (s, "bad-request:O")
+    | some ps =>
+      let g := { s.g with usets := s.usets }
+      match Opt.optimize g ps with
+      | some og => some ({ s with og := some og }, encGrammar og.rules)
+      | none => some ({ s with og := none }, "exc KeyError")
   | ["P", layer, rule, k, fuel, input] =>
     match k.toNat?, fuel.toNat? with
     | some k, some fuel =>
@@ -175,6 +203,15 @@ def handleCore (s : Session) : Toks → Option (Session × String)
       let inp : Input := (decStr input).toArray
       match layer with
       | "interp" => some (s, encR1 (L1.parse g inp fuel rule k))
+      | "gen" => some (s, encRG (LG.parse g inp fuel rule k))
+      | "opt" =>
+        match s.og with
+        | some og => some (s, encR1 (L1.parse { og with usets := s.usets } inp fuel rule k))
+        | none => some (s, "no-optimized-grammar")
+      | "optgen" =>
+        match s.og with
+        | some og => some (s, encRG (LG.parse { og with usets := s.usets } inp fuel rule k))
+        | none => some (s, "no-optimized-grammar")
       | _ => some (s, "bad-layer:" ++ layer)
     | _, _ => some (s, "bad-request:P")
   | _ => none
